@@ -103,6 +103,8 @@ Section flag.
   Lemma flag_now : t_now (flag i tag b t) = t_now t. Proof. unfold flag. by destruct b. Qed.
   Lemma flag_pending : t_pending (flag i tag b t) = t_pending t. Proof. unfold flag. by destruct b. Qed.
   Lemma flag_mem : t_mem (flag i tag b t) = t_mem t. Proof. unfold flag. by destruct b. Qed.
+  Lemma flag_sids : t_sids (flag i tag b t) = t_sids t. Proof. unfold flag. by destruct b. Qed.
+  Lemma flag_keys : t_keys (flag i tag b t) = t_keys t. Proof. unfold flag. by destruct b. Qed.
   Lemma flag_fail : t_fail (flag i tag b t) = (if b then [] else [(i, tag)]) ++ t_fail t.
   Proof. unfold flag. by destruct b. Qed.
   Lemma flag_true : b = true → flag i tag b t = t. Proof. by intros ->. Qed.
@@ -188,6 +190,10 @@ Definition grant_flags (w : twaiter) (a : Z) (hs : list hold) (ws : list twaiter
   (if cap_ok w a hs pend then [] else ["C01:grant-over-capacity"%string]) ++
   (if fifo_ok w ws then [] else ["C03:not-fifo"%string]).
 
+Definition new_key (r : resp) : list str := match r with RLock true key _ => [key] | _ => [] end.
+Definition key_flags (r : resp) (ks : list str) : list string :=
+  match r with RLock true key _ => if bool_decide (key ∈ ks) then ["FRESH:key-reused"%string] else [] | _ => [] end.
+
 Definition new_hold (w : twaiter) (a : Z) (r : resp) : list hold :=
   match r with RLock true key _ => [Hold (tw_name w) key (tw_size w) (tw_sid w) (lease a (tw_lt w))] | _ => [] end.
 
@@ -203,15 +209,17 @@ Proof. unfold t_waiter_done, findw. by intros ->. Qed.
 
 Lemma wd_known cfg i wid a r cause t w rest : findw wid (t_waiters t) = w :: rest →
   t_waiter_done cfg i wid a r cause t =
-    TState (ef a (t_holds t) ++ new_hold w a r) (rmw wid (t_waiters t)) (t_now t) (t_pending t) (t_mem t)
-           (map (pair i) ((if is_grant r then grant_flags w a (t_holds t) (t_waiters t) (t_pending t) else []) ++ own_flags w a r cause)
+    TState (ef a (t_holds t) ++ new_hold w a r) (rmw wid (t_waiters t)) (t_now t) (t_pending t) (t_mem t) (t_sids t)
+           (new_key r ++ t_keys t)
+           (map (pair i) (key_flags r (t_keys t) ++
+                          (if is_grant r then grant_flags w a (t_holds t) (t_waiters t) (t_pending t) else []) ++ own_flags w a r cause)
             ++ t_fail t).
 Proof.
   intros E. pose proof (findw_id _ _ _ _ E) as [Hid _]. unfold t_waiter_done. unfold findw in E. rewrite E.
   destruct r as [[] key e| |]; simpl.
   - unfold grant_flags, cap_ok, pend_on, fifo_ok, flag, count_name, waiters_on, won, on_name. simpl. rewrite Hid.
     destruct (Z.of_nat _ - _ <? tw_size w); destruct (match List.filter _ (t_waiters t) with [] => false | _ => _ end);
-      case_bool_decide; simpl; rewrite ?app_nil_r; reflexivity.
+      destruct (bool_decide (e = None)); simpl; destruct (bool_decide (key ∈ t_keys t)); simpl; rewrite ?app_nil_r; reflexivity.
   - rewrite app_nil_r. unfold flag, wait_dl.
     destruct e as [[]|]; simpl; try case_bool_decide; simpl; reflexivity.
   - by rewrite app_nil_r.
@@ -267,6 +275,14 @@ Proof.
 Qed.
 Lemma done_list_mem cfg i cause cs t : t_mem (done_list cfg i cause cs t) = t_mem t.
 Proof. revert t. induction cs as [|c cs IH]; intros t; [done|]. simpl. by rewrite IH, done1_mem. Qed.
+Lemma done1_sids cfg i cause t c : t_sids (done1 cfg i cause t c) = t_sids t.
+Proof.
+  unfold done1. destruct (findw (c_wid c) (t_waiters t)) as [|w rest] eqn:E.
+  - by rewrite wd_unknown.
+  - by erewrite wd_known.
+Qed.
+Lemma done_list_sids cfg i cause cs t : t_sids (done_list cfg i cause cs t) = t_sids t.
+Proof. revert t. induction cs as [|c cs IH]; intros t; [done|]. simpl. by rewrite IH, done1_sids. Qed.
 Lemma done_list_now cfg i cause cs t : t_now (done_list cfg i cause cs t) = t_now t.
 Proof. revert t. induction cs as [|c cs IH]; intros t; [done|]. simpl. by rewrite IH, done1_now. Qed.
 Lemma done_list_pending cfg i cause cs t : t_pending (done_list cfg i cause cs t) = t_pending t.
